@@ -77,6 +77,12 @@ type fiExec struct {
 	paths  int
 	unch   int
 	failed []string
+	// uses: index/slice sites over the tracked slice, keyed by construct;
+	// true once some path could not prove the site in range
+	useBad   map[ssa.Instruction]string
+	useSeen  map[ssa.Instruction]bool
+	checkUse bool
+	walkAll  bool // do not cut paths that cannot store (needed to see every use)
 	limit  int
 	over   bool
 }
@@ -206,11 +212,17 @@ func (x *fiExec) step(st *fiState, ins ssa.Instruction) {
 			hi = x.lenOf(st, t.X)
 		}
 		st.sliceLen[t] = hi.add(lo, -1)
+		if x.checkUse && x.isTrackedSlice(t.X) {
+			x.proveUse(st, t, []aff{lo, hi.add(lo, -1), x.lenOf(st, t.X).add(hi, -1)})
+		}
 		// the slice expression did not panic: 0 ≤ lo ≤ hi
 		st.facts = append(st.facts, lo, hi.add(lo, -1))
 	case *ssa.IndexAddr:
 		if _, isSlice := t.X.Type().Underlying().(*types.Slice); isSlice {
 			i := x.ev(st, t.Index)
+			if x.checkUse && x.isTrackedSlice(t.X) {
+				x.proveUse(st, t, []aff{i, x.lenOf(st, t.X).add(i, -1).add(affConst(1), -1)})
+			}
 			st.facts = append(st.facts, i, x.lenOf(st, t.X).add(i, -1).add(affConst(1), -1))
 		}
 	case *ssa.Call:
@@ -243,6 +255,45 @@ func (x *fiExec) step(st *fiState, ins ssa.Instruction) {
 				st.inB = 1 // unknown value: must satisfy the invariant
 			}
 			st.trace = append(st.trace, x.spec.B+" = "+sx(t.Val))
+		}
+	}
+}
+
+// isTrackedSlice: v is a load of the tracked slice field of the receiver.
+func (x *fiExec) isTrackedSlice(v ssa.Value) bool {
+	u, ok := v.(*ssa.UnOp)
+	return ok && u.Op == token.MUL && x.recvField(u.X) == x.spec.S
+}
+
+// proveUse: every requirement (each ≥ 0) of an index/slice site over the
+// tracked slice must follow from the facts of the path, where the entry
+// invariant may be used if the path established that B held at entry.
+func (x *fiExec) proveUse(st *fiState, key ssa.Instruction, reqs []aff) {
+	x.useSeen[key] = true
+	facts := append([]aff(nil), st.facts...)
+	I0, L0 := affAtom(fiSym{"I0"}), affAtom(fiSym{"L0"})
+	facts = append(facts, L0)
+	if st.b0 == 1 {
+		facts = append(facts, I0, L0.add(I0, -1).add(affConst(1), -1))
+	}
+	for round := 0; round < 2; round++ {
+		for _, d := range st.neqs {
+			if fmProve(facts, d) {
+				facts = append(facts, d.add(affConst(1), -1))
+			} else if fmProve(facts, d.scale(-1)) {
+				facts = append(facts, d.scale(-1).add(affConst(1), -1))
+			}
+		}
+	}
+	if fmUnsat(facts) {
+		return
+	}
+	for _, r := range reqs {
+		if !fmProve(facts, r) {
+			if _, dup := x.useBad[key]; !dup {
+				x.useBad[key] = fmt.Sprintf("need %s ≥ 0 on the path: %s", fiAffString(r), strings.Join(st.trace, "; "))
+			}
+			return
 		}
 	}
 }
@@ -469,7 +520,7 @@ func (x *fiExec) walk(b *ssa.BasicBlock, pred *ssa.BasicBlock, st *fiState, onPa
 	if x.over {
 		return
 	}
-	if !st.stored && !x.reachS[b] && !x.blockStores(b) {
+	if !x.walkAll && !st.stored && !x.reachS[b] && !x.blockStores(b) {
 		// nothing stored so far and nothing can be: the fields are unchanged
 		x.paths++
 		x.unch++
@@ -537,10 +588,16 @@ func (x *fiExec) blockStores(b *ssa.BasicBlock) bool {
 	return false
 }
 
+// lastFiExec keeps the executor of the latest checkFieldInvariant call so that
+// the caller can read the use obligations collected on the way.
+var lastFiExec *fiExec
+
 // checkFieldInvariant runs the induction step for one method. It returns the
 // number of paths walked, how many leave the fields untouched, and the failures.
-func checkFieldInvariant(P *Program, fn *ssa.Function, spec fiSpec) (paths, unchanged int, failures []string, structural string) {
-	x := &fiExec{P: P, fn: fn, spec: spec, inLoop: map[*ssa.BasicBlock]bool{}, reachS: map[*ssa.BasicBlock]bool{}, limit: 400000}
+func checkFieldInvariant(P *Program, fn *ssa.Function, spec fiSpec, walkAll bool) (paths, unchanged int, failures []string, structural string) {
+	x := &fiExec{P: P, fn: fn, spec: spec, inLoop: map[*ssa.BasicBlock]bool{}, reachS: map[*ssa.BasicBlock]bool{}, limit: 400000,
+		useBad: map[ssa.Instruction]string{}, useSeen: map[ssa.Instruction]bool{}, checkUse: true, walkAll: walkAll}
+	lastFiExec = x
 	reach := blockReachAll(fn)
 	for _, b := range fn.Blocks {
 		x.inLoop[b] = reach[b][b]
